@@ -707,7 +707,7 @@ class C06(PropCheck):
 
     def fresh_name(self):
         C06._ctr += 1
-        d = os.path.join(WORK, 'C06', 'files')
+        d = os.path.join(wdir('C06'), 'files')
         os.makedirs(d, exist_ok=True)
         return os.path.join(d, 'a%d_%d' % (os.getpid(), C06._ctr))
 
